@@ -80,3 +80,38 @@ Theorem C15_byte_level_statistics : forall s himg kimg vimg (m : Io.mp),
   forall r, stats_of s = Ok r ->
   exists m', Io.stats_of m = Ok (r, m') /\ ro_step (Io.m_st m) (Io.m_st m') /\ Io.images m' = Io.images m.
 Proof. exact Io_d_stats. Qed.
+
+(** OVER THE CONCRETE BUFFER, ACROSS A CLOSE (Io_ro_sessions.v).  Create with any buffer kinds, any
+    history, flush through ANY caches in front of the three files: the disk holds [dk], [dv], [dh]
+    = [render] of the state.  Open those bytes with ANY OTHER buffer kinds, make any calls none of
+    which is a put or a delete (none at all: "flush on an unmodified map"), flush through ANY
+    caches: the disk holds [dk], [dv], [dh] again - byte for byte. *)
+From Aby Require Import Refine_all Cache Cache_x Flatx Io_run Io_flat Io_flat_ro Io_cache Io_flat_upd Io_durable Io_sessions Io_det Io_ro_sessions.
+Theorem C15_byte_level_read_only_session_keeps_the_files : forall t n bk bv bh ops1 bk' bv' bh' ops2,
+  (1 <= n)%N -> pow2 n -> Forall (op_wf t) (ops1 ++ ops2) -> sized (Store.create t n) (ops1 ++ ops2) ->
+  Forall (fun o => is_update o = false) ops2 ->
+  exists s1 (cf1 cf2 : Io.fid -> list call),
+    store_run (Store.create t n) ops1 = Ok (s1, snd (spec_run ∅ ops1)) /\
+    store_run s1 ops2 = Ok (s1, snd (spec_run (fst (spec_run ∅ ops1)) ops2)) /\
+    forall ck cv ch fuel,
+      backs ck (Io.get_file (Io.empty_st bk bv bh) Io.FKey) ->
+      backs cv (Io.get_file (Io.empty_st bk bv bh) Io.FVal) ->
+      backs ch (Io.get_file (Io.empty_st bk bv bh) Io.FHtx) ->
+      (forall f c, In (f, c) [(Io.FKey, ck); (Io.FVal, cv); (Io.FHtx, ch)] ->
+         (xrun_fuel (Rabuf.k_cs c) (flat_of (Io.get_file (Io.empty_st bk bv bh) f)) (map call_op (cf1 f)) <= fuel)%nat) ->
+      exists dk dv dh,
+        flushed_disk fuel ck (cf1 Io.FKey) = Ok dk /\
+        flushed_disk fuel cv (cf1 Io.FVal) = Ok dv /\
+        flushed_disk fuel ch (cf1 Io.FHtx) = Ok dh /\
+        render s1 = Ok (dh, dk, dv) /\
+        forall ck' cv' ch' fuel',
+          backs ck' (Io.get_file (Io.reopen_st dk dv dh bk' bv' bh') Io.FKey) ->
+          backs cv' (Io.get_file (Io.reopen_st dk dv dh bk' bv' bh') Io.FVal) ->
+          backs ch' (Io.get_file (Io.reopen_st dk dv dh bk' bv' bh') Io.FHtx) ->
+          (forall f c, In (f, c) [(Io.FKey, ck'); (Io.FVal, cv'); (Io.FHtx, ch')] ->
+             (xrun_fuel (Rabuf.k_cs c) (flat_of (Io.get_file (Io.reopen_st dk dv dh bk' bv' bh') f)) (map call_op (cf2 f))
+                <= fuel')%nat) ->
+          flushed_disk fuel' ck' (cf2 Io.FKey) = Ok dk /\
+          flushed_disk fuel' cv' (cf2 Io.FVal) = Ok dv /\
+          flushed_disk fuel' ch' (cf2 Io.FHtx) = Ok dh.
+Proof. exact read_only_session_keeps_the_files. Qed.
